@@ -159,6 +159,8 @@ func (d *dspec) oval() val {
 		return val{kind: 2, b: d.ob}
 	case 2:
 		return val{kind: 6, i: int64(d.ob) - 'a'}
+	case 5:
+		return val{kind: 8, b: d.ob}
 	case 3:
 		return val{kind: 1, b: d.ob}
 	default:
